@@ -830,6 +830,8 @@ class Interp:
         vals = [self.expr(a, env) if isinstance(a, ast.AST) else a for a in args]
         for k in e.keywords:
             kw[k.arg] = self.expr(k.value, env)
+        if fn in self.overrides and isinstance(self.overrides[fn], _PyCall) and fn.split(".")[0] not in env:
+            return self.overrides[fn].fn(*vals, **kw)  # a stub given by the rule wins over the built-in models
         if fn == "len":
             if isinstance(vals[0], Node):
                 raise AnalysisError("len of node")
